@@ -306,9 +306,15 @@ def check_size_line_cap(P, R, rid):
                     lp_ = [l for l in T.loops_of(n.ast)]
                     apps = [c for c in walk_shallow(fc.node) if isinstance(c, ast.Call) and call_attr(c) == 'append' and dotted(c.func.value) == lst and lp_ and T._inside(c, lp_[0].body)]
                     rd_in = [c for c in reads_ if lp_ and T._inside(c, lp_[0].body)]
-                    if apps and rd_in and len(apps) >= len(rd_in):
-                        cap.append(n)
-                        inc = inc or apps
+                    if apps and rd_in:
+                        # every byte read is appended: no way from a read back to a read that avoids the append
+                        an_ = [gc.node_of_stmt(a_)[0] for a_ in apps]
+                        rn_ = [gc.node_of_stmt(r_)[0] for r_ in rd_in]
+                        every = all(not any(m_ in gc.reachable_from([s_], avoid_nodes=an_) for m_ in rn_)
+                                    for r0_ in rn_ for (s_, lab_) in r0_.succ if lab_ != 'exc' and s_ not in an_)
+                        if every:
+                            cap.append(n)
+                            inc = inc or apps
     ok = False
     for n in cap:
         reach = gc.reachable_from(T.succ_by_label(n, 'true'))
